@@ -316,6 +316,14 @@ class AllCuts(Part):
                         if k % nshards == shard:
                             yield {"ci": ci, "libenc": libenc, "cuts": [i, j]}
                         k += 1
+                if tier == THOROUGH and not libenc and n <= 64:
+                    # every triple of cuts as well
+                    for i in range(0, n + 1):
+                        for j in range(i, n + 1):
+                            for l in range(j, n + 1):
+                                if k % nshards == shard:
+                                    yield {"ci": ci, "libenc": libenc, "cuts": [i, j, l]}
+                                k += 1
 
     def check(self, case: t.Any, ctx: Ctx) -> t.List[Violation]:
         base = _ENUM_CASES[case["ci"]]
@@ -341,7 +349,7 @@ PROP = Property(
         "final response otherwise), each message encoded by the reference encoder or the library, and a chunking (cut "
         "list with duplicates = empty chunks, one delivery, byte-at-a-time) with each chunk handed over as bytes / "
         "bytearray / memoryview and overwritten with 0xAA right after receive returns; plus ALL one- and two-cut "
-        "chunkings of five short streams. Oracle: chunked delivery returns exactly the generated messages in order "
+        "chunkings (thorough: also all three-cut chunkings) of five short streams. Oracle: chunked delivery returns exactly the generated messages in order "
         "(projection equality, exact types => no views into the caller's buffer), no exception, same final state, same "
         "in-progress set (clone probes) and same handling of a following message as a single delivery. Non-trivial = a "
         "cut strictly inside a PDU's identifier/length octets, a chunk spanning a PDU boundary, or an empty chunk "
